@@ -83,9 +83,9 @@ SHAPES = [
     ("serialize-to-null-nonnull", "{ a bn }", ["Query.a", "Query.bn"], "scalars"),
     ("serialize-to-null-item", "{ bls bv }", ["Query.bls", "Query.bv"], "scalars"),
     # null items (nullable and non-null item types) and lists of lists: the two executors complete lists with different code
-    ("null-items", "{ lz { x y } numz a lzn { y } }", ["Query.lz", "Obj.x", "Query.numz", "Query.lzn"]),
-    ("matrix", "{ mx mo { x y } a }", ["Query.mx", "Query.mo", "Obj.x"]),
-    ("matrix-nonnull", "{ mon { y x } b }", ["Query.mon", "Obj.y", "Query.b"]),
+    ("null-items", "{ lz { x y } numz a lzn { y } }", ["Query.lz", "Obj.x", "Query.lzn"]),
+    ("matrix", "{ mx mo { x y } a }", ["Query.mo", "Obj.x"]),
+    ("matrix-nonnull", "{ mon { y x } b }", ["Query.mon", "Obj.y"]),
 ]
 STYLES = ("default", "sync", "async", "nested", "submit")
 
